@@ -242,6 +242,70 @@ def job_confine(T, Fc, asc, smear, tier, geom):
     return recs
 
 
+# ---------------------------------------------------------------- unit-carrying bounding range
+def job_units_bounding(T, Fc, asc, smear):
+    """a bounding range given as quantities (MHz, kHz) confines exactly like the same frequencies given in Hz"""
+    from props.frame_common import SQ
+    recs = []
+    tag = f"C06:units-bounding:{(T, Fc, asc, smear)}"
+    g = inject.GEOMS['g1']
+    df, dt, fch1 = Sym(RV(g['df'])), Sym(RV(g['dt'])), Sym(RV(g['fch1']))
+    b0M, b1k = Sym(z3.Real('b0_MHz')), Sym(z3.Real('b1_kHz'))
+    D = sym_data(T, Fc)
+    P1, T1, F1 = uf1('PATH'), uf1('TP'), uf2('FP')
+
+    def run():
+        out = []
+        for rng_ in ((SQ(b0M, 'MHz'), SQ(b1k, 'kHz')), (b0M * 1000000, b1k * 1000)):
+            fr = make_frame(T, Fc, asc, df, dt, fch1)
+            fr.data = D.copy()
+            sig = fr.add_signal(P1, T1, F1, None, bounding_f_range=rng_, doppler_smearing=smear, smearing_subsamples=2)
+            out.append((fr.data, sig))
+        return out
+    with frame_patches(units=True):
+        leaves = core.explore(run, [], cap=400)
+    conds = []
+    for li, leaf in enumerate(leaves):
+        conds.append(leaf.cond())
+        base = leaf.pc + leaf.side
+        name = f"{tag}:leaf{li}"
+        if leaf.kind == 'exc':
+            r, m = core.check(base, timeout_ms=30000)
+            recs.append(q(name + ':noexc', r, detail=repr(leaf.value)))
+            if r == 'sat':
+                recs.append(cex('C06:units-bounding:raise', f'add_signal with a unit-carrying bounding range raises {leaf.value!r}', dict(fn='units_bounding', asc=asc, smear=smear), name=name + ':noexc'))
+            continue
+        (da, sa), (db, sb) = leaf.value
+        dis = [z3.simplify(lift(x) - lift(y), som=True) != 0 for x, y in zip(list(sa.flat) + list(da.flat), list(sb.flat) + list(db.flat))]
+        r, m = core.check(base + [z3.Or(*dis)], timeout_ms=60000)
+        recs.append(q(name, r))
+        if r == 'sat':
+            recs.append(cex('C06:units-bounding', 'a bounding range given in MHz / kHz gives another injection than the same range in Hz', dict(fn='units_bounding', asc=asc, smear=smear), name=name))
+        if li == 0:
+            recs.append(q(name + ':twin', core.check(base + [lift(sa[0, 0]) != lift(sb[0, 0]) + 1], timeout_ms=30000)[0], expect='sat'))
+    r, _ = core.check([z3.Not(z3.Or(*conds))], timeout_ms=30000)
+    recs.append(q(f"{tag}:split-complete", r, leaves=len(leaves)))
+    return recs
+
+
+def replay_units_bounding(p):
+    import astropy.units as u
+    import setigen as stg
+    msgs = []
+    for (lo, hi) in ((4100.0, 4110.0), (4090.0, 4200.0), (4097.0, 4099.0)):
+        outs = []
+        for rng_ in ((lo * 1e-6 * u.MHz, hi * 1e-3 * u.kHz), (lo, hi), (lo * u.Hz, hi * 1e-9 * u.GHz)):
+            fr = stg.Frame(fchans=16, tchans=3, df=2.0, dt=4.0, fch1=4096.0, ascending=p['asc'], seed=1)
+            fr.add_noise(3.0)
+            sig = fr.add_signal(stg.constant_path(4104.0, 0.3), stg.constant_t_profile(2.0), stg.gaussian_f_profile(6.0), stg.constant_bp_profile(1.0),
+                                bounding_f_range=rng_, doppler_smearing=p['smear'], smearing_subsamples=2)
+            outs.append((sig, fr.data))
+        for k in (0, 2):
+            if not np.allclose(outs[k][0], outs[1][0], rtol=1e-9, atol=1e-12) or not np.allclose(outs[k][1], outs[1][1], rtol=1e-9, atol=1e-12):
+                msgs.append(f"bounding range ({lo}, {hi}) Hz given as quantities injects {float(np.sum(outs[k][0]))!r} in total, as plain Hz {float(np.sum(outs[1][0]))!r}")
+    return bool(msgs), '; '.join(msgs[:2]) or 'unit-carrying bounding ranges agree with plain Hz'
+
+
 # ---------------------------------------------------------------- injections that fail
 FAULTS = ('path_fn', 'tprofile_fn', 'fprofile_fn', 'bp_fn', 'path_len', 'path_type', 'tprofile_len', 'bp_len')
 
@@ -454,7 +518,7 @@ def job_superpose(T, Fc, asc, smear, bound, tier):
     return recs
 
 
-REPLAYS = {'add_signal': inject.replay_add_signal, 'superpose': replay_superpose, 'int_data': replay_int_data, 'failed': replay_failed}
+REPLAYS = {'add_signal': inject.replay_add_signal, 'superpose': replay_superpose, 'int_data': replay_int_data, 'failed': replay_failed, 'units_bounding': replay_units_bounding}
 
 
 def main():
@@ -479,6 +543,9 @@ def main():
             for bound in (False, True):
                 jobs.append(('job_superpose', (2, 3, asc, smear, bound, ck.tier)))
                 jobs.append(('job_int_data', (2, 3, asc, bound, smear)))
+    for asc in (False, True):
+        for smear in (False, True):
+            jobs.append(('job_units_bounding', (2, 3, asc, smear)))
     for smear in (False, True):
         for fault in FAULTS:
             jobs.append(('job_failed_injection', (2, 3, fault != 'bp_fn', smear, fault)))
